@@ -64,7 +64,14 @@ class BaseMilstein(base_solver.BaseSDESolver, metaclass=abc.ABCMeta):
             y0_prime = y0 + self.y_prime_f_factor(dt, f) + g_ * sqrt_dt
             g_prime = self.sde.g(t0, y0_prime)
             g_prod_I_k = self.sde.prod(g, I_k)
-            gdg_prod = self.sde.prod(g_prime - g, v) / (2 * sqrt_dt)
+            if self.sde_type == SDE_TYPES.stratonovich:
+                # The one-sided difference (g_prime - g) / sqrt_dt carries the error term (1/2) g^2 g'' sqrt_dt. In the Ito
+                # scheme it multiplies I_k^2 - dt, which has mean zero; here it multiplies I_k^2, leaving a local mean error
+                # (1/4) g^2 g'' dt^1.5 and hence strong order 0.5 only. The symmetric difference does not have that term.
+                g_prime_minus = self.sde.g(t0, y0 - g_ * sqrt_dt)
+                gdg_prod = self.sde.prod(g_prime - g_prime_minus, v) / (4 * sqrt_dt)
+            else:
+                gdg_prod = self.sde.prod(g_prime - g, v) / (2 * sqrt_dt)
         else:
             f = self.sde.f(t0, y0)
             g_prod_I_k, gdg_prod = self.sde.g_prod_and_gdg_prod(t0, y0, I_k, 0.5 * v)
